@@ -38,7 +38,7 @@ class Response:
                                                           len(self.body), self.complete)
 
 
-def parse_responses(wire, methods, eof=True):
+def parse_responses(wire, methods, eof=True, final_marker=None):
     out = []
     p = 0
     n = len(wire)
@@ -69,7 +69,7 @@ def parse_responses(wire, methods, eof=True):
             r.head_lines.append(ln)
             r.fields.append((ln[:c], ln[c + 1:].strip(b" \t")))
         p = he + 4
-        if 100 <= r.status < 200:
+        if 100 <= r.status < 200 and not (final_marker and r.get(final_marker)):
             r.interim = True
             r.framing = "none"
             r.complete = True
@@ -81,7 +81,7 @@ def parse_responses(wire, methods, eof=True):
         mi += 1
         te = [v.lower() for v in r.get(b"transfer-encoding")]
         cl = r.get(b"content-length")
-        if method == b"HEAD" or method == "HEAD" or r.status in (204, 304):
+        if method == b"HEAD" or method == "HEAD" or r.status in (204, 304) or 100 <= r.status < 200:
             r.framing = "none"
             r.complete = True
             r.end = p
